@@ -1432,7 +1432,6 @@ func skipWhenNonEmpty(bo *ssa.BinOp, taken bool) bool {
 	return nonEmptyOnTrue == !taken
 }
 
-
 // derivedFromRedacted: v is f(args...) where f only rearranges what it is given - neither f nor the package functions it
 // calls read a package-level variable whose type can hold a TLSConfig - and every argument whose type can hold a
 // TLSConfig is itself the result of a redactor that covers all TLS paths of that argument's type. Whatever TLS context is
